@@ -89,6 +89,8 @@ def check(run):
     _same_value_two_units(run, P)
     _derived_from_existing(run, P)
     _mean_over_real_corners(run, P)
+    _xyz_helpers(run, P)
+    _repopulate_rewrites_both(run, P)
     # centres pass through _normalize_xyz on every return
     for fn in ("_construct_face_centroids", "_construct_edge_centroids"):
         f = P.func(f"uxarray/grid/coordinates.py:{fn}")
@@ -308,3 +310,90 @@ def _mean_over_real_corners(run, P):
             run.holds("IDX/real-corners", c, where(f, gathers[0]), f"corners gathered as {fn_param}[f, 0:n_nodes_per_face[f]] ({good} gather(s))")
         else:
             run.incomplete("IDX/real-corners", c, where(f), "no gather from the corner table recognised")
+
+
+def _live_defs(P, relpath, prefix):
+    """the live (last) definition of every module-level function whose name starts with prefix"""
+    m = next(mm for mm in P.modules.values() if mm.relpath == relpath)
+    return [f for f in m.all_funcs if f.name.startswith(prefix) and m.defs.get(f.name) is f]
+
+
+def _xyz_helpers(run, P):
+    """_xyz_to_lonlat_rad*: (1) when `normalize` is requested the components reach arcsin/arctan2 only after a division by the vector's
+    LENGTH (_normalize_xyz*, or / sqrt(x*x+y*y+z*z)) - a division by the squared length alone is exact for unit input and wrong otherwise;
+    (2) the pole snap is the absolute window |z| > 1 - ERROR_TOLERANCE: an isclose() without rtol=0 widens it to atol + 1e-5*|1| (0.26 degrees)."""
+    from ..astutil import LocalDefs
+    from ..flow import enumerate_paths
+    for f in _live_defs(P, "uxarray/grid/coordinates.py", "_xyz_to_lonlat_rad"):
+        has_norm_param = "normalize" in f.params()
+        # ---- (1)
+        if has_norm_param:
+            c = f"{f.key}:normalised-by-length"
+            paths = [p for p in enumerate_paths(f.node.body) if p.exit == "return"]
+            bad = 0
+            n_rel = 0
+            for p in paths:
+                if p.cond_facts().get("normalize") is not True:
+                    continue
+                n_rel += 1
+                ok = False
+                for e in p.events:
+                    for n in ast.walk(e):
+                        if isinstance(n, ast.Call) and (dotted(n.func) or [""])[-1].startswith("_normalize_xyz"):
+                            ok = True
+                        if isinstance(n, ast.Call) and (dotted(n.func) or [""])[-1] in ("sqrt", "norm"):
+                            ok = True
+                if not ok:
+                    bad += 1
+            if n_rel == 0:
+                run.incomplete("F-PATH/normalise-by-length", c, where(f), "no path with normalize=True found")
+            elif bad:
+                run.violation("F-PATH/normalise-by-length", c, where(f), f"on {bad} path(s) with normalize=True the components are not divided by the vector's length (no _normalize_xyz*, no sqrt/norm): for input of length r != 1 the latitude becomes asin(z / r**2)")
+            else:
+                run.holds("F-PATH/normalise-by-length", c, where(f), f"normalize=True divides by the length on all {n_rel} path(s)")
+        # ---- (2)
+        c = f"{f.key}:pole-snap-window"
+        mask = None
+        for st in iter_stmts(f.node.body):
+            if isinstance(st, ast.Assign) and isinstance(st.targets[0], ast.Name) and any(isinstance(n, ast.Call) and (dotted(n.func) or [""])[-1] in ("abs", "absolute", "fabs") for n in ast.walk(st.value)):
+                uses = [s2 for s2 in iter_stmts(f.node.body) if isinstance(s2, ast.Assign) and isinstance(s2.value, ast.Call) and (dotted(s2.value.func) or [""])[-1] == "where" and s2.value.args and norm(s2.value.args[0]) == st.targets[0].id]
+                if uses:
+                    mask = st
+        if mask is None:
+            run.incomplete("F-PATH/pole-snap", c, where(f), "pole mask not found")
+            continue
+        v = mask.value
+        ok = isinstance(v, ast.Compare) and len(v.ops) == 1 and isinstance(v.ops[0], (ast.Gt, ast.GtE)) and isinstance(v.comparators[0], ast.BinOp) and isinstance(v.comparators[0].op, ast.Sub) \
+            and norm(v.comparators[0].left) in ("1.0", "1") and norm(v.comparators[0].right) in ("ERROR_TOLERANCE",)
+        if ok:
+            run.holds("F-PATH/pole-snap", c, where(f, mask), "pole snap only for |z| > 1 - ERROR_TOLERANCE (absolute window of 1e-8)")
+        else:
+            wide = any(isinstance(n, ast.Call) and (dotted(n.func) or [""])[-1] in ("isclose", "allclose") and not any(k.arg == "rtol" for k in n.keywords) for n in ast.walk(v))
+            run.violation("F-PATH/pole-snap", c, where(f, mask), f"pole snap condition is {norm(v)[:80]}" + (": isclose without rtol adds the default relative tolerance 1e-5, so every point within 0.26 degrees of a pole is moved onto it" if wide else ": expected |z| > 1 - ERROR_TOLERANCE"))
+
+
+def _repopulate_rewrites_both(run, P):
+    """populate functions with a `repopulate` flag: when it is set, BOTH representations of the centre are rewritten on every path
+    (otherwise the recomputed lon/lat and the stale x/y/z describe different points)"""
+    from ..astutil import str_const
+    from ..flow import enumerate_paths
+    for fname, kind_ in (("_populate_face_centroids", "face"), ("_populate_edge_centroids", "edge"), ("_populate_face_centerpoints", "face")):
+        f = P.try_func(f"uxarray/grid/coordinates.py:{fname}")
+        if f is None or "repopulate" not in f.params():
+            continue
+        want = {f"{kind_}_{r}" for r in ("lon", "lat", "x", "y", "z")}
+        paths = [p for p in enumerate_paths(f.node.body) if p.exit != "raise" and p.cond_facts().get("repopulate") is True]
+        c = f"{f.key}:repopulate-rewrites-both"
+        if not paths:
+            run.incomplete("F-PATH/repopulate-both", c, where(f), "no path with repopulate=True")
+            continue
+        missing = None
+        for p in paths:
+            stored = {str_const(e.targets[0].slice) for e in p.events if isinstance(e, ast.Assign) and isinstance(e.targets[0], ast.Subscript) and str_const(e.targets[0].slice)}
+            if not want <= stored:
+                missing = sorted(want - stored)
+                break
+        if missing:
+            run.violation("F-PATH/repopulate-both", c, where(f), f"with repopulate=True a path rewrites only part of the centre: {missing} keep their old values while the other representation is recomputed")
+        else:
+            run.holds("F-PATH/repopulate-both", c, where(f), f"repopulate=True rewrites lon, lat, x, y, z on all {len(paths)} paths")
